@@ -43,6 +43,19 @@ func (c *c09Clock) Since() int {
 	return int(c.now.Sub(c.start) / time.Microsecond)
 }
 
+// c09Age lets a freshly made limiter live through a number of idle refresh periods before the
+// history starts (none, or close to and beyond 2^10 and 2^12): a limiter in production is rarely
+// in its first seconds, and the contract does not depend on its age.  Whole periods, so the phase
+// of the period boundaries is kept; chosen from the offset already drawn: no further random draws.
+func c09Age(c *c09Clock, P time.Duration) {
+	ages := []int{0, 0, 1000, 1020, 1022, 1023, 1024, 4094}
+	c.mu.Lock()
+	a := ages[int((c.start.UnixNano()/1000)%8)]
+	c.now = c.now.Add(time.Duration(a) * P)
+	c.start = c.now
+	c.mu.Unlock()
+}
+
 func c09InstallClock(offset time.Duration) *c09Clock {
 	t0 := time.Date(2022, 3, 4, 5, 6, 7, 0, time.UTC).Add(offset)
 	c := &c09Clock{now: t0, start: t0}
@@ -128,6 +141,7 @@ func TestVerifC09Replay(t *testing.T) {
 		T := time.Duration(vx.Int(pol["T"])) * unit // absent (MQTT form) = 0
 		clk := c09InstallClock(time.Duration(rng.Int63n(int64(time.Hour))))
 		lim := c09New(L, P, T)
+		c09Age(clk, P)
 		obs.Raw(vx.M{"b": bi, "ev": "reset", "pol": vx.M{"L": L, "P": c09Us(P), "T": c09Us(T)}})
 		bad := ""
 		for si, st := range beh[1:] {
@@ -277,6 +291,7 @@ func TestVerifC09Trace(t *testing.T) {
 		}
 		clk := c09InstallClock(time.Duration(rng.Int63n(int64(time.Hour))))
 		lim := c09New(L, P, T)
+		c09Age(clk, P)
 		w.Emit(vx.M{"ev": "reset", "pol": vx.M{"L": L, "P": c09Us(P), "T": c09Us(T)}})
 		pUs := int64(P / time.Microsecond)
 		mode := rng.Intn(5)
@@ -391,6 +406,7 @@ func TestVerifC09Conc(t *testing.T) {
 		L := 1 + rng.Intn(3)
 		clk := c09InstallClock(time.Duration(rng.Int63n(int64(time.Hour))))
 		rl := New(NewPolicy(T, P, L))
+		c09Age(clk, P)
 		emit(vx.M{"ev": "reset", "pol": vx.M{"L": []int{L}, "P": c09Us(P), "T": c09Us(T)}})
 		for r := 0; r < rounds; r++ {
 			var wg sync.WaitGroup
